@@ -44,8 +44,13 @@ def main():
                 res = {"applies": True, "checks": {}}
                 for pid in checks:
                     t = time.time()
+                    # the evidence file is the record of the check on /repo itself: keep it, a run on a mutated tree must not replace it
+                    evf = os.path.join(ROOT, "evidence", pid + ".json")
+                    saved = open(evf, "rb").read() if os.path.exists(evf) else None
                     p = subprocess.run([sys.executable, os.path.join(ROOT, "tools", "check.py"), pid, "--tier", a.tier],
                                        cwd=ROOT, env=env, capture_output=True, text=True)
+                    if saved is not None:
+                        open(evf, "wb").write(saved)
                     vio = [l for l in p.stdout.split("\n") if l.startswith("VIOLATION")]
                     failed = [l for l in p.stdout.split("\n") if "OBLIGATION FAILED" in l]
                     res["checks"][pid] = {"rc": p.returncode, "violation_lines": vio, "failed_obligations": [f[:300] for f in failed[:6]],
